@@ -68,9 +68,11 @@ fn main() {
 		}
 		"ignores" => rt.block_on(ignores(&args[2], &args[3])),
 		"onbusy" => {
+			std::fs::create_dir_all(&args[3]).unwrap();
+			let base = std::fs::canonicalize(&args[3]).unwrap().to_string_lossy().into_owned();
 			for case in read_cases(&args[2]) {
 				let rt = tokio::runtime::Builder::new_multi_thread().worker_threads(3).enable_all().build().unwrap();
-				let v = rt.block_on(onbusy(case, &args[3]));
+				let v = rt.block_on(onbusy(case, &base));
 				emit(&v);
 				rt.shutdown_timeout(std::time::Duration::from_millis(200));
 			}
@@ -171,6 +173,17 @@ fn mono_ms() -> u128 {
 	(ts.tv_sec as u128) * 1000 + (ts.tv_nsec as u128) / 1_000_000
 }
 
+/// live (non-zombie) process?
+fn proc_alive(pid: i64) -> bool {
+	match std::fs::read_to_string(format!("/proc/{pid}/stat")) {
+		Ok(s) => match s.rfind(')') {
+			Some(i) => !matches!(s[i + 1..].trim_start().chars().next(), Some('Z') | Some('X') | None),
+			None => false,
+		},
+		Err(_) => false,
+	}
+}
+
 async fn onbusy(case: Value, base: &str) -> Value {
 	use std::time::Duration;
 	use watchexec_events::{Event, FileType, Priority, Tag};
@@ -234,7 +247,7 @@ async fn onbusy(case: Value, base: &str) -> Value {
 	let mut alive = Vec::new();
 	for l in &log {
 		if let Some(pid) = l["pid"].as_i64() {
-			if unsafe { libc::kill(pid as i32, 0) } == 0 && !alive.contains(&pid) {
+			if proc_alive(pid) && !alive.contains(&pid) {
 				alive.push(pid);
 			}
 		}
